@@ -287,10 +287,15 @@ class PseudotrajCheck(Check):
         if rng.random() < 0.12:
             # the workflow's rule run_pt: grid file -> PtWriter -> trajectory file(s) -> a reader in another stage
             rows = self._gen_rows(rng, tier)
-            return {"kind": "ptwriter", "mol1": mol1, "mol2": mol2, "tasks": [rows], "cell": rng.choice([30.0, 250.0]),
-                    "out": rng.choice(["memory", "xtc", "xyzdir"]), "rng_init": rng.randrange(2 ** 32),
-                    "structure_first": rng.choice([None, None, 5.0, 12.5]),
-                    "ops": [{"op": "fault", "fault": RngSeam.generate(rng)}] if rng.random() < 0.3 else []}
+            sc = {"kind": "ptwriter", "mol1": mol1, "mol2": mol2, "tasks": [rows], "cell": rng.choice([30.0, 250.0]),
+                  "out": rng.choice(["memory", "xtc", "xyzdir"]), "rng_init": rng.randrange(2 ** 32),
+                  "structure_first": rng.choice([None, None, 5.0, 12.5]),
+                  "ops": [{"op": "fault", "fault": RngSeam.generate(rng)}] if rng.random() < 0.3 else []}
+            if sc["out"] != "memory" and rng.random() < 0.5:
+                # the output paths still hold what an earlier (other molecules, other grid) or interrupted run left there
+                sc["stale"] = {"kind": rng.choice(["other_run", "other_run", "torn", "older_than_grid"]),
+                               "frac": rng.choice([0.3, 0.6, 1.0]), "seed": rng.randrange(2 ** 32)}
+            return sc
         n_tasks = rng.choice([1, 2, 2, 3])
         tasks = [self._gen_rows(rng, tier) for _ in range(n_tasks)]
         if rng.random() < 0.4 and n_tasks > 1:
@@ -377,6 +382,9 @@ class PseudotrajCheck(Check):
                     pos = np.array(uni.atoms.positions)
                 judge(pos, k, 1e-4, f"PtWriter in-memory frame {k}")
             checked = len(rows)
+            if sc.get("stale"):
+                self._leave_stale_outputs(sc, d, len(rows), len(exp[0]), gpath)
+                faults["stale_output_" + sc["stale"]["kind"]] = 1
             if sc["out"] == "xtc":
                 xtc, gro = os.path.join(d, "trajectory.xtc"), os.path.join(d, "structure.gro")
                 with lib_call("PtWriter.write_full_pt"):
@@ -408,6 +416,39 @@ class PseudotrajCheck(Check):
         return {"events": log.n + checked, "fingerprint": log.digest(), "faults": faults, "probes": probes,
                 "sig": repr(sig), "nontrivial": checked >= 2 and (sc["out"] != "memory" or bool(sc.get("structure_first"))),
                 "inter": repr(sig[:2])}
+
+    @staticmethod
+    def _leave_stale_outputs(sc, d, n_rows, n_atoms, gpath):
+        """Files of an earlier run on the output paths: written after the grid file unless `older_than_grid`."""
+        import random as _random
+        st = sc["stale"]
+        r = _random.Random(st["seed"])
+        written = []
+        if sc["out"] == "xyzdir":
+            for k in range(n_rows):
+                if r.random() > st["frac"]:
+                    continue
+                na = n_atoms if r.random() < 0.5 else max(1, n_atoms + r.choice([-1, 1, 3]))
+                lines = [str(na), "frame of an earlier run"]
+                lines += ["C %.5f %.5f %.5f" % (r.uniform(-9, 9), r.uniform(-9, 9), r.uniform(-9, 9)) for _ in range(na)]
+                text = "\n".join(lines) + "\n"
+                if st["kind"] == "torn":
+                    text = text[: max(1, len(text) // 2)]
+                pth = os.path.join(d, f"{str(k).zfill(10)}.xyz")
+                with open(pth, "w") as f:
+                    f.write(text)
+                written.append(pth)
+        else:
+            for name in ("trajectory.xtc", "structure.gro"):
+                if r.random() <= st["frac"]:
+                    pth = os.path.join(d, name)
+                    with open(pth, "wb") as f:
+                        f.write(bytes(r.randrange(256) for _ in range(r.choice([0, 17, 400]))))
+                    written.append(pth)
+        g = os.stat(gpath).st_mtime
+        for pth in written:
+            t = g - 3600.0 if st["kind"] == "older_than_grid" else g + 5.0
+            os.utime(pth, (t, t))
 
     def execute(self, sc):
         if sc.get("kind") == "ptwriter":
@@ -825,15 +866,31 @@ class AssignmentCheck(Check):
         common = {"grid": {"b": b, "o": o, "t": t}, "mol1": mol1, "mol2": mol2, "pool": pool,
                   "include_outliers": rng.random() < 0.25, "cartesian_flag": rng.random() < 0.5,
                   "box": rng.choice([None, None, 8.0, 10.0, 30.0, 100.0]), "rng_init": rng.randrange(2 ** 32)}
+        radii = [10 * x for x in radii_nm] if radii_nm else \
+            {"[0.2, 0.3, 0.4]": [2, 3, 4], "[0.15, 0.3]": [1.5, 3], "linspace(0.2, 0.6, 4)": [2, 10 / 3, 14 / 3, 6],
+             "[0.2, 0.25, 0.5]": [2, 2.5, 5]}[t]
+
+        def earlier_analysis():
+            """Another grid analysed earlier in the same process: same rotation and direction grids, same number of
+            shells, same innermost and outermost radius, interior radii elsewhere (or, with two shells, another outer
+            radius)."""
+            if rng.random() >= 0.3:
+                return None
+            nm = [x / 10 for x in radii]
+            if len(nm) >= 3:
+                var = [nm[0]] + [round(nm[i] + rng.choice([-0.35, -0.2, 0.2, 0.35]) * min(nm[i] - nm[i - 1], nm[i + 1] - nm[i]), 5)
+                                 for i in range(1, len(nm) - 1)] + [nm[-1]]
+            else:
+                var = [nm[0], round(nm[-1] * rng.choice([0.8, 1.3]), 5)]
+            return {"b": b, "o": o, "t": "[" + ", ".join(repr(round(x, 5)) for x in var) + "]",
+                    "frames": rng.randint(2, 6), "seed": rng.randrange(2 ** 32)}
+
         if rng.random() < 0.15:
             via_files = rng.random() < 0.5
             if via_files and mol2.get("kind") in ("planar", "c2v_planar", "c2"):
                 # xtc keeps 0.01 A: atoms that sit on a principal plane or axis do not any more in the file
                 via_files = False
-            return {"kind": "backassign", **common, "via_files": via_files, "ops": []}
-        radii = [10 * x for x in radii_nm] if radii_nm else \
-            {"[0.2, 0.3, 0.4]": [2, 3, 4], "[0.15, 0.3]": [1.5, 3], "linspace(0.2, 0.6, 4)": [2, 10 / 3, 14 / 3, 6],
-             "[0.2, 0.25, 0.5]": [2, 2.5, 5]}[t]
+            return {"kind": "backassign", **common, "via_files": via_files, "ops": [], "earlier": earlier_analysis()}
         rmax = radii[-1] + (radii[-1] - radii[-2]) / 2
         mode = rng.choice(["walk", "walk", "iid", "mixed"])
         n = rng.choice([20, 60, 150, rng.randint(20, 400 if tier == "quick" else 600), rng.choice([1, 2, 3, 5])])
@@ -864,7 +921,7 @@ class AssignmentCheck(Check):
         shift = [0.0, 0.0, 0.0] if rng.random() < 0.8 else [rng.uniform(-5, 5) for _ in range(3)]
         stop = None if rng.random() < 0.8 else rng.choice([1, n // 2 or 1, n - 1 or 1, n, n, rng.randint(1, n)])
         return {"kind": "walk", **common, "mode": mode, "shift": shift, "stop": stop,
-                "ask_twice": rng.random() < 0.12, "ops": frames}
+                "ask_twice": rng.random() < 0.12, "ops": frames, "earlier": earlier_analysis()}
 
     def execute(self, sc):
         import molgri.molecules.transitions as tr
@@ -941,6 +998,23 @@ class AssignmentCheck(Check):
                 stop = sc.get("stop")
                 if np.any(shift != 0):
                     probes["whole_system_shifted"] = 1
+            if sc.get("earlier"):
+                # an analysis on another grid done earlier in this process (its answers are not judged here)
+                import random as _random
+                ea = sc["earlier"]
+                er = _random.Random(ea["seed"])
+                try:
+                    with quiet():
+                        efg = FullGrid(ea["b"], ea["o"], ea["t"])
+                        earr = np.array(efg.get_full_grid_as_array(), dtype=float)
+                        rows_e = earr[[er.randrange(len(earr)) for _ in range(ea["frames"])]]
+                        ecoords = np.array([np.vstack([ref1, place_com(ref2, m2, f[3:], f[:3])]) for f in rows_e],
+                                           dtype=np.float32)
+                        etraj = Universe(Merge(u1.atoms, u2.atoms)._topology, ecoords, format=MemoryReader)
+                        tr.AssignmentTool(earr, etraj, u2).get_full_assignments()
+                    faults["earlier_analysis_on_another_grid"] = 1
+                except Exception:  # noqa: BLE001
+                    probes["earlier_analysis_failed"] = 1
             if sc["kind"] == "walk" and len(frames) > 1 and sc["pool"].get("cursor_at"):
                 traj.trajectory[min(sc["pool"]["cursor_at"], len(frames) - 1)]
                 probes["cursor_left_on_later_frame"] = 1
